@@ -16,7 +16,12 @@ import (
 )
 
 // VerifDir is the root of the verification tree.
-var VerifDir = "/verif"
+var VerifDir = func() string {
+	if d := os.Getenv("VERIF_OUT"); d != "" {
+		return d
+	}
+	return "/verif"
+}()
 
 type knownFinding struct {
 	prop, key, text string
